@@ -2827,3 +2827,67 @@ mod tests {
         }
     }
 }
+
+/// Verification hook (H8): the emulation of test binary arguments (`-- --exact --skip ...`),
+/// driven through the real clap definition of `TestBuildFilter`, exposed as plain data.
+#[cfg(nextest_verif)]
+#[doc(hidden)]
+pub mod verif_dispatch {
+    use super::*;
+
+    #[derive(Debug, Parser)]
+    struct VerifCli {
+        #[clap(flatten)]
+        build_filter: TestBuildFilter,
+    }
+
+    /// Why `merged_test_filter` failed.
+    #[derive(Debug)]
+    pub enum VerifArgsError {
+        /// clap rejected the command line.
+        Clap(String),
+        /// `TestBinaryArgsParseError { reason, args }`.
+        TestBinaryArgs(&'static str, Vec<String>),
+        /// Any other error.
+        Other(String),
+    }
+
+    /// The outcome of the real `merge_test_binary_args` and `make_test_filter_builder`.
+    #[derive(Debug)]
+    pub struct MergedTestFilter {
+        /// `run_ignored` after the merge (`None`: neither `--run-ignored` nor an emulated flag).
+        pub run_ignored: Option<RunIgnored>,
+        /// The patterns after the merge.
+        pub patterns: TestFilterPatterns,
+        /// The builder returned by `make_test_filter_builder(vec![])`.
+        pub builder: TestFilterBuilder,
+    }
+
+    /// Parses `argv` (filter options of `cargo nextest list/run`, without the program name) and
+    /// runs the argument merge on the result.
+    pub fn merged_test_filter(argv: &[String]) -> Result<MergedTestFilter, VerifArgsError> {
+        let cli = VerifCli::try_parse_from(std::iter::once("verif".to_owned()).chain(argv.iter().cloned()))
+            .map_err(|e| VerifArgsError::Clap(e.to_string()))?;
+        let convert = |e: ExpectedError| match e {
+            ExpectedError::TestBinaryArgsParseError { reason, args } => {
+                VerifArgsError::TestBinaryArgs(reason, args)
+            }
+            other => VerifArgsError::Other(other.to_string()),
+        };
+        let mut run_ignored = cli.build_filter.run_ignored.map(Into::into);
+        let mut patterns =
+            TestFilterPatterns::new(cli.build_filter.pre_double_dash_filters.clone());
+        cli.build_filter
+            .merge_test_binary_args(&mut run_ignored, &mut patterns)
+            .map_err(convert)?;
+        let builder = cli
+            .build_filter
+            .make_test_filter_builder(vec![])
+            .map_err(convert)?;
+        Ok(MergedTestFilter {
+            run_ignored,
+            patterns,
+            builder,
+        })
+    }
+}
